@@ -4,8 +4,8 @@
    raise, which return code each process exits with, in which order processes exit -- every
    jobs >= 1 and both settings of --stop-early. *)
 From Coq Require Import List Arith Bool NArith.
-From Conductor Require Import Model.Loader Model.Planner Model.Exec
-  Proofs.ExecInv Proofs.ExecTheorems Proofs.ExecMain.
+From Conductor Require Import Model.Loader Model.Planner Model.Exec Model.RunCase
+  Proofs.ExecInv Proofs.ExecTheorems Proofs.ExecMain Proofs.PlannerInv Proofs.PlannerExact Proofs.ComposeExec.
 Import ListNotations.
 
 (* the final state of every operation is determined by the dependency graph and the oracle:
@@ -61,6 +61,33 @@ Theorem C03_stop_early :
     exists ev, trace s' = ev :: trace s /\ forall e, In e (trace s) -> is_failure e = false.
 Proof. exact main_stop_early. Qed.
 Print Assumptions C03_stop_early.
+
+(* Task level, end to end (loader -> planner -> executor, Model/RunCase.cond_run; no side condition
+   on the project, the plan or the oracle; without --stop-early): every needed task has exactly
+   one operation and ends succeeded, failed or skipped;
+   - it is SKIPPED iff some task it depends on -- directly or transitively through tasks that are
+     executed in this invocation (RPath) -- FAILED, and then it is never started;
+   - it FAILED iff every direct dependency that is executed succeeded and the oracle fails it
+     (launch error, non-zero exit code or signal);
+   - it SUCCEEDED iff every direct dependency that is executed succeeded and the oracle does not
+     fail it -- so every needed task that does not depend on a failed one still runs.
+   The report (C03_report) names exactly those sets. *)
+Theorem C03_task_level_end_to_end :
+  forall fuel tasks c loaded ps evs,
+  cond_run fuel tasks c = ORun loaded ps (Some evs) -> 1 <= c_jobs c -> c_stop c = false ->
+  let pl := plan_of ps in let orc := oracle_of pl c in let n := length (ops ps) in
+  let task o := op_task (op_at (ops ps) o) in let info := info_of tasks in
+  exists s, final_state pl (c_jobs c) false orc s /\ evs = rev (report pl (c_root c) s ++ trace s) /\
+  forall o, o < n ->
+    (ost s o = SKIPPED <-> exists f, f < n /\ RPath tasks c (task o) (task f) /\ ost s f = FAILED) /\
+    (ost s o = FAILED <->
+       (forall d, d < n -> In (task d) (t_deps (info (task o))) -> ost s d = SUCCEEDED) /\ fails pl orc o = true) /\
+    (ost s o = SUCCEEDED <->
+       (forall d, d < n -> In (task d) (t_deps (info (task o))) -> ost s d = SUCCEEDED) /\ fails pl orc o = false) /\
+    (ost s o = SKIPPED -> forall sl, ~ In (EStart o sl) evs) /\
+    (ost s o = SUCCEEDED \/ ost s o = FAILED \/ ost s o = SKIPPED).
+Proof. exact cond_run_task_classification. Qed.
+Print Assumptions C03_task_level_end_to_end.
 
 (* non-vacuity: a well-formed two-operation plan (op 1 depends on op 0) whose first operation
    fails ends with op 0 FAILED, op 1 SKIPPED and a failure report *)
